@@ -16,6 +16,7 @@ func runC16(c *Ctx) {
 	c.Clause("C16.5 RemoveAll / ReplaceWithClosed / AddConnRunner cover the same ID collections; handleCloseError reaches exactly one of RemoveAll/ReplaceWithClosed on every path and closes the ID manager; ReplaceWithClosed schedules deletion of every ID it inserted")
 	c.Clause("C16.6 peer limit: NEW_CONNECTION_ID beyond MaxActiveConnectionIDs stored IDs is CONNECTION_ID_LIMIT_ERROR; frames while using zero-length IDs are PROTOCOL_VIOLATION")
 	c.Clause("C16.7 the server-side generator is given the routed client destination connection ID; Retire removes the ID from the active set on every path")
+	c.Clause("C16.10 every path that leaves a path manager (client Path.Close, server SwitchToPath) has its connection ID retired")
 	c.Clause("C16.8 the routing table, reset-token table and server slot are accessed under the transport mutex; C16.9 registering a dialed connection does not replace the routing entry of a live one")
 	c.NotCovered("routed set = live set over histories; expiry timing")
 	c.NotCovered("acceptance of every ID within the limit this endpoint advertised for spec-driven clients (decided under C12)")
@@ -28,6 +29,7 @@ func runC16(c *Ctx) {
 	c.rule("C16.7", func() { c16RoutedIDTracked(c) })
 	c.rule("C16.8", func() { c16Guarded(c) })
 	c.rule("C16.9", func() { c16NoRoutingEntryReplaced(c) })
+	c.rule("C16.10", func() { c16PathsGiveTheirConnIDBack(c) })
 }
 
 // allocFieldVal: for a composite literal allocation, the value stored into the field.
